@@ -1,8 +1,15 @@
 import Tumfl.Props.C03
 import Tumfl.Props.C11
 import Tumfl.Props.Lex
+import Tumfl.Props.Parse
 #print axioms Tumfl.Props.C03_ladder_is_climb
 #print axioms Tumfl.Props.C03_parseExp
 #print axioms Tumfl.Inst.model_ladder_ok
 #print axioms Tumfl.Theory.climb_complete_top
 #print axioms Tumfl.Props.Lex_complete
+#print axioms Tumfl.Props.C03_parse_complete
+#print axioms Tumfl.Props.C03_accept_iff
+#print axioms Tumfl.Props.C10_parse_sound
+#print axioms Tumfl.Props.Accepts_unique
+#print axioms Tumfl.Props.C03_needs_inScope
+#print axioms Tumfl.Props.Parse_example_sound
